@@ -511,6 +511,8 @@ pub fn bundles() -> Vec<(&'static str, Expr)> {
         ("include", inc("Inc")),
         ("node", field("n", "N")),
         ("char", field("c", "char")),
+        // the box marker on the built-in character rule
+        ("boxed-char", bfield("c", "char")),
         ("optpair", opt(seq(vec![field("f", "X"), field("g", "Y")]))),
         ("altpair", choice(vec![field("f", "X"), field("g", "Y")])),
         ("nullable-pair", opt(seq(vec![field("q", "Q"), field("r", "QL")]))),
@@ -528,7 +530,7 @@ pub fn c02(tier: Tier) -> Vec<Case> {
     let leaves = c02_leaves();
     let full_atoms = vec![field("f", "X"), field("g", "X"), field("f", "Y"), bfield("f", "X"), field("c", "char"), rref("X"), lit("b"), inc("Inc"), field("q", "Q")];
     let small_atoms = vec![field("f", "X"), field("g", "Y"), field("f", "Y"), lit("b"), field("q", "Q")];
-    let over_atoms = vec![over("X"), over("Y"), bover("X"), lit("b"), over("char")];
+    let over_atoms = vec![over("X"), over("Y"), bover("X"), lit("b"), over("char"), bover("char")];
     let (k_full, k_small, k_over, k_ctx, len) = match tier {
         Tier::Quick => (3, 4, 3, 3, 4),
         Tier::Thorough => (4, 5, 4, 4, 5),
